@@ -1737,6 +1737,12 @@ func (w *world) judgeStalls(x *common.Exec) {
 					x.Oblige(1)
 					if a.got < a.must || a.got > a.may+a.walk {
 						x.Violate("C08/duplicate-accounting", "leaf %s: deliveries plus duplicate counts = %d, but the leaf was offered to this subscriber between %d and %d times (feed updates after the sync .. after the request, plus the initial walk)\n%s  writers:\n%s", strings.Replace(k, "\x00", ":", 1), a.got, a.must, a.may+a.walk, describe(sr), w.history())
+						if a.got > a.may+a.walk && a.walk >= 2 {
+							// more deliveries than notifications, to a subscriber several of
+							// whose paths select the leaf: some notification was offered to
+							// it once per matching path (the at-most-once clause of C06)
+							x.Violate("C06/notification-offered-once-per-matching-path", "leaf %s is selected by %d paths of this subscription; deliveries plus duplicate counts = %d although at most %d notifications (plus the walk) concerned it\n%s  writers:\n%s", strings.Replace(k, "\x00", ":", 1), a.walk, a.got, a.may+a.walk, describe(sr), w.history())
+						}
 						break
 					}
 				}
